@@ -1,6 +1,8 @@
 import Driver.EmitCmds
 import Driver.NumCmds
 import W2c2Verif.Model.Sim
+import W2c2Verif.Model.SimModule
+import W2c2Verif.Model.Elem
 
 namespace Driver
 open W2c2Verif Model Sim
@@ -56,6 +58,56 @@ def simCmd (sess : EmitSession) (ws : List String) : Option String :=
             | .trap t => s!"trap {t.code}" | .oof => "oof" | .stuck => "stuck"
           some s!"src {src} | tgt {tgt}"
     | _, _, _, _, _ => some "err parse"
+  | _ => none
+
+/-- the module of the session as `MModule` (imports are not callable here: `host` is undefined) -/
+def sessModule (sess : EmitSession) : MModule :=
+  let nimp := sess.names.funcImports.length
+  { types := sess.ctx.types
+    imports := sess.ctx.funcTypeIdx.take nimp
+    funcs := (sess.ctx.funcTypeIdx.drop nimp).zipIdx.map fun (ti, k) =>
+      match sess.bodies.find? (fun b => b.1 = nimp + k) with
+      | some (_, ls, is) => ⟨ti, ls, is⟩
+      | none => ⟨ti, [], [.unreachable]⟩
+    table := sess.table
+    host := fun _ _ => .ub .unboundVar }
+
+def showOutW (o : Out (Option Spec.Val)) : String :=
+  match o with
+  | .val (some v) => "val " ++ showVal v
+  | .val none => "val "
+  | .trap t => s!"trap {t.code}"
+  | .ub k => "ub " ++ k.name
+  | .oof => "oof"
+
+/-- `E elem <size> <off>:<f>,<f>…;<off>:…` (or `-`): table initialisation by `Model.initTable`; remembered as the session's table.
+    `E mrun <depth> <funcIndex> <args>`: module-level run (calls resolved through the function index space / table),
+    specification side and emitted-C side -/
+def simCmd2 (sess : EmitSession) (ws : List String) : Option (EmitSession × String) :=
+  match ws with
+  | ["E", "elem", size, segs] =>
+    let parseSeg (t : String) : Option ElemSeg :=
+      match t.splitOn ":" with
+      | [o, fs] => do
+        let o ← o.toNat?
+        let fs ← (if fs = "" then some [] else (fs.splitOn ",").mapM String.toNat?)
+        some ⟨o, fs⟩
+      | _ => none
+    match size.toNat?, (if segs = "-" then some [] else (segs.splitOn ";").mapM parseSeg) with
+    | some n, some sg =>
+      let tbl := initTable n sg
+      some ({ sess with table := tbl }, "tbl " ++ ",".intercalate (tbl.map fun e => match e with | some f => toString f | none => "-"))
+    | _, _ => some (sess, "err parse")
+  | ["E", "mrun", depth, fidx, args] =>
+    match depth.toNat?, fidx.toNat?, (if args = "-" then some [] else (args.splitOn ",").mapM parseWVal) with
+    | some d, some fi, some argv =>
+      let m := sessModule sess
+      match m.compileFuncs m.funcs with
+      | .error e => some (sess, "err compile " ++ e)
+      | .ok cfs =>
+        let r := m.run driverNumSem cfs d
+        some (sess, s!"src {showOutW (r.1 fi argv)} | tgt {showOutW (r.2 fi argv)}")
+    | _, _, _ => some (sess, "err parse")
   | _ => none
 
 end Driver
